@@ -140,10 +140,12 @@ class Interp:
     hooks: dict callee-regex -> fn(interp, args, dest_type) -> z3 expr
     """
 
-    def __init__(self, fn, consts, hooks=None):
+    def __init__(self, fn, consts, hooks=None, fns=None, depth=0):
         self.fn = fn
         self.consts = consts
         self.hooks = hooks or {}
+        self.fns = fns or ALL_FNS
+        self.depth = depth
         self.obligations = []   # (path condition, must-hold condition, description)
         self.paths = []         # (path condition, store, stop block)
 
@@ -291,6 +293,7 @@ class Interp:
             stmts = self.fn.blocks.get(bb)
             if stmts is None:
                 raise Unsupported("no block " + bb)
+            self.cur_pc = pc
             for s in stmts[:-1]:
                 self.stmt(s, store)
             bb_next = self.term(stmts[-1], store, pc, stop)
@@ -384,7 +387,34 @@ class Interp:
             if name == "count_ones":
                 x = argv[0]
                 return sum((z3.ZeroExt(31, z3.Extract(i, i, x)) for i in range(x.size())), bv(0, 32))
+        if re.search(r"(Ord>::min|cmp::min)(::<\w+>)?$", callee):
+            return z3.If(z3.ULT(argv[0], argv[1]), argv[0], argv[1])
+        if re.search(r"(Ord>::max|cmp::max)(::<\w+>)?$", callee):
+            return z3.If(z3.UGT(argv[0], argv[1]), argv[0], argv[1])
+        # a loop-free function of the crate itself: interpret its MIR (bounded depth)
+        if self.depth < 4 and self.fns:
+            name = callee.split("::<")[0]
+            cands = [f for n, lst in self.fns.items() for f in lst
+                     if n == name or n.endswith("::" + name.split("::")[-1]) and name.split("::")[-1] == n.split("::")[-1]]
+            bodies = {json.dumps(f.blocks, sort_keys=True) for f in cands}
+            if len(bodies) == 1:
+                f = cands[0]
+                sub = Interp(f, self.consts, self.hooks, self.fns, self.depth + 1)
+                store = {"_%d" % (i + 1): a for i, a in enumerate(argv)}
+                sub.run("bb0", store, stop=set())
+                for (pc, c, desc) in sub.obligations:
+                    self.obligations.append((z3.And(self.cur_pc, pc), c, desc + " [in %s]" % name.split("::")[-1]))
+                rets = [(pc, st["_0"]) for (pc, st, w) in sub.paths if w == "return"]
+                if not rets:
+                    raise Unsupported("callee %s never returns" % callee)
+                val = rets[-1][1]
+                for (pc, v) in rets[:-1]:
+                    val = z3.If(pc, v, val)
+                return val
         raise Unsupported("call " + callee)
+
+
+ALL_FNS = {}
 
 
 def split_args(s):
@@ -705,6 +735,7 @@ def main():
     try:
         text = dump_mir(crate, scratch)
         fns, consts = parse_mir(text)
+        ALL_FNS.update(fns)
         ob = Ob(scratch, cap)
         enc = OBLIGATIONS[name](fns, consts, ob)
         out.update({"verdict": ob.verdict, "note": ob.note, "queries": ob.log["queries"], "enc": enc, "cex": ob.cex})
